@@ -13,3 +13,19 @@ def iNetX.encode (control streamid sequence secs nanos pif : Nat) (payload : Byt
   beBytes 4 secs ++ beBytes 4 nanos ++ beBytes 4 pif ++ payload
 
 end Acra.Spec
+
+namespace Acra.Spec
+open Acra.Py
+
+/-- IENA: key(16) size-in-16-bit-words(16) time-of-year-in-µs(48) key-status(8) N2-status(8)
+    sequence(16), parameters, end field(16); all big-endian; size counts header and trailer. -/
+def IENA.encode (key timeusec keystatus status sequence endfield : Nat) (payload : Bytes) : Bytes :=
+  beBytes 2 key ++ beBytes 2 ((16 + payload.length) / 2) ++ beBytes 6 timeusec ++ beBytes 1 keystatus ++
+  beBytes 1 status ++ beBytes 2 sequence ++ payload ++ beBytes 2 endfield
+
+/-- IENA-M parameter: id(16) delay(16) dataset-length-in-bytes(16) dataset, zero-padded to 16 bits -/
+def IENAM.encodeParam (paramid delay : Nat) (dataset : Bytes) : Bytes :=
+  beBytes 2 paramid ++ beBytes 2 delay ++ beBytes 2 dataset.length ++ dataset ++
+    (if dataset.length % 2 = 1 then [0] else [])
+
+end Acra.Spec
